@@ -21,6 +21,7 @@ public:
     using Type = {{ type_def.jni.name }};
     using CppType = {{ type_def.cpp.typename }};
     using JniType = {{ type_def.jni.typename.value }};
+    using Boxed = {{ type_def.jni.name }};
 
     static CppType toCpp(JNIEnv* jniEnv, JniType j) { return static_cast<CppType>(::pydjinni::JniClass<Type>::get().ordinal(jniEnv, j)); }
     static ::pydjinni::LocalRef<JniType> fromCpp(JNIEnv* jniEnv, CppType c) { return ::pydjinni::JniClass<Type>::get().create(jniEnv, static_cast<jint>(c)); }
